@@ -54,7 +54,11 @@ func build(chunks []int) obj {
 		for i := c; i < len(back); i++ {
 			back[i] = 0xEE
 		}
-		views = append(views, buffer.View(back[:c]))
+		if c == 0 && len(views)%2 == 0 {
+			views = append(views, nil) // an empty chunk may also be a nil View
+		} else {
+			views = append(views, buffer.View(back[:c]))
+		}
 		off += c
 	}
 	return obj{vv: buffer.NewVectorisedView(total, views), ref: data}
